@@ -12,6 +12,7 @@ Contracts
 """
 import ast
 import itertools
+import math
 import random
 
 import torch
@@ -683,6 +684,144 @@ def ob_general_alphabet():
     return Ob("C01.tips.general_alphabet", "B", body, clause="tip compatibility for general alphabets with multi-character codes (bounded)", funcs=FUNCS)
 
 
+def ob_site_indices():
+    """SitePattern 'indices' (a comma-separated list of Python-style indices and slices): the patterns are exactly the columns the list
+    selects, in any spelling - several entries, single (also negative) indices, steps, reversed order - for tip partials and tip states"""
+    def body():
+        from collections import Counter
+        from torchtree.evolution.alignment import Alignment, Sequence
+        from torchtree.evolution.datatype import NucleotideDataType
+        from torchtree.evolution.site_pattern import SitePattern
+        from torchtree.evolution.taxa import Taxa, Taxon
+        names = ["t0", "t1", "t2"]
+        seqs = ["ACGTACGTRYNA", "AAGTCCGTRC-A", "ACGGACTTAYNC"]
+        L = len(seqs[0])
+        taxa = Taxa("taxa", [Taxon(nm, {}) for nm in names])
+        aln = Alignment("a", [Sequence(nm, sq) for nm, sq in zip(names, seqs)], taxa, NucleotideDataType(None))
+        specs = ["0:6,6:12", "6:12,0:6", "11,10,9,8,7,6,5,4,3,2,1,0", "0:12:2,1:12:2", "::3,1::3", "2::3", "0:6,8,-1", "-1,0", "-2,-1", "5", "-1:", ":-1", "3:9"]
+        n = 0
+        for spec in specs:
+            sel = []
+            for part in spec.split(","):
+                if ":" in part:
+                    f = [None if x == "" else int(x) for x in part.split(":")]
+                    sel += list(range(L))[slice(*f)]
+                else:
+                    sel.append(list(range(L))[int(part)])
+            sp = SitePattern.from_json({"id": "sp", "type": "SitePattern", "alignment": "a", "indices": spec}, {"a": aln})
+            for states in (False, True):
+                try:
+                    parts, w = sp.compute_tips_states() if states else sp.compute_tips_partials(True)
+                except Exception as e:
+                    from vt.scenario import _raised_in_repo
+                    if _raised_in_repo(e) and len(sel) > 0:
+                        raise Refuted("SitePattern(indices=%r) raises %s: %s" % (spec, type(e).__name__, e), witness={"indices": spec}, confirmed=True,
+                                      replay={"kind": "custom", "contract": "C01", "func": "replay_site_indices", "args": {}})
+                    raise
+                n += 1
+                nt = NucleotideDataType(None)
+                want = Counter()
+                for c in sel:
+                    col = tuple(sq[c] for sq in seqs)
+                    want[tuple(min(nt.encoding(ch), 4) for ch in col) if states else tuple(tuple(iupac_vector(ch)) for ch in col)] += 1
+                got = Counter()
+                for p_ in range(len(w)):
+                    key = tuple(min(int(parts[i][p_]), 4) for i in range(3)) if states else tuple(tuple(float(v) for v in parts[i][:, p_]) for i in range(3))
+                    got[key] += int(w[p_])
+                if got != want:
+                    raise Refuted("SitePattern(indices=%r)%s: %d sites in the patterns (weights %s), the index list selects the %d columns %s" % (
+                        spec, " (tip states)" if states else "", int(w.sum()), w.tolist(), len(sel), sel), witness={"indices": spec, "selected": sel}, confirmed=True,
+                        replay={"kind": "custom", "contract": "C01", "func": "replay_site_indices", "args": {}})
+        return {"backend": "enum", "cases": n, "bounded": "%d index lists over 12 columns" % len(specs),
+                "statement": "SitePattern 'indices': the compressed patterns are the multiset of the selected columns for %d spellings" % len(specs)}
+    return Ob("C01.site_indices", "B", body, clause="column selection (bounded enumeration)", funcs=FUNCS)
+
+
+def replay_site_indices(args):
+    try:
+        ob_site_indices().fn()
+    except Refuted as e:
+        return False, e.detail
+    return True, "held"
+
+
+def ob_codon_models_one_process():
+    """two likelihood models over codon data for DIFFERENT genetic codes (same number of sense codons) built in one process, then evaluated:
+    each equals the marginal sum computed from the documented MG94 matrix of its own code (star tree, 3 taxa: one internal node)"""
+    def body():
+        import contracts.C04 as C04
+        from torchtree.core.parameter import Parameter
+        from torchtree.evolution.alignment import Alignment, Sequence
+        from torchtree.evolution.datatype import CodonDataType
+        from torchtree.evolution.site_model import ConstantSiteModel
+        from torchtree.evolution.site_pattern import SitePattern
+        from torchtree.evolution.substitution_model.codon import MG94
+        from torchtree.evolution.taxa import Taxa, Taxon
+        from torchtree.evolution.tree_likelihood import TreeLikelihoodModel
+        from torchtree.evolution.tree_model import UnRootedTreeModel, parse_tree
+        t64 = lambda v: torch.tensor(v, dtype=torch.float64)
+        names = ["A", "B", "C"]
+        seqs = {"A": "CTGAGAATAAAA---", "B": "CTAAGGATAAAGCCC", "C": "TTGCGAATGAAAC?C"}
+        bl = [0.11, 0.23, 0.07]
+        n = 0
+        for order in (["Universal", "Alternative Yeast", "Bacterial"], ["Alternative Yeast", "Universal"], ["Yeast", "Mycoplasma"]):
+            built = []
+            for code in order:
+                dt = CodonDataType("codon", code)
+                S = dt.state_count
+                taxa = Taxa("taxa", [Taxon(nm, {}) for nm in names])
+                aln = Alignment("a", [Sequence(nm, seqs[nm]) for nm in names], taxa, dt)
+                tree = parse_tree(taxa, {"newick": "((A,B),C);"})
+                tm = UnRootedTreeModel("t", tree, taxa, Parameter("bl", t64(bl)))
+                g_ = torch.Generator().manual_seed(S)
+                f = torch.rand(S, generator=g_, dtype=torch.float64) + 0.2
+                f = f / f.sum()
+                sub = MG94("m", dt, Parameter("al", t64([0.6])), Parameter("be", t64([2.5])), Parameter("ka", t64([3.7])), Parameter("f", f))
+                built.append((code, dt, sub, f, TreeLikelihoodModel("like", SitePattern("sp", aln), tm, sub, ConstantSiteModel("sm"))))
+            for code, dt, sub, f, like in built:
+                got = float(like().reshape(-1)[0])
+                S = dt.state_count
+                exch = C04._exchangeability_spec("MG94", code, sub, S)
+                Q = torch.zeros(S, S, dtype=torch.float64)
+                for i in range(S):
+                    for j in range(S):
+                        if i != j:
+                            Q[i, j] = float(exch((), i, j)) * float(f[j])
+                    Q[i, i] = -Q[i].sum()
+                Q = Q / (-(f * torch.diagonal(Q)).sum())
+                # unrooted tree ((A,B),C): branch index = node index; the two root branches merge into one
+                br = like.tree_model.branch_lengths().reshape(-1)
+                idx = {nm: k for k, nm in enumerate(names)}
+                tA, tB = float(br[idx["A"]]), float(br[idx["B"]])
+                tC = float(br[idx["C"]]) + float(br[3]) if br.numel() > 3 else float(br[idx["C"]])
+                P = {nm: torch.matrix_exp(Q * t_) for nm, t_ in (("A", tA), ("B", tB), ("C", tC))}
+                states = list(dt.states)
+                want = 0.0
+                for col in range(0, len(seqs["A"]), 3):
+                    tipv = {}
+                    for nm in names:
+                        cod = seqs[nm][col:col + 3]
+                        tipv[nm] = torch.tensor([1.0 if (cod not in states or cod == s_) else 0.0 for s_ in states], dtype=torch.float64)
+                    lik = (f * (P["A"] @ tipv["A"]) * (P["B"] @ tipv["B"]) * (P["C"] @ tipv["C"])).sum()
+                    want += math.log(float(lik))
+                n += 1
+                if abs(got - want) > 1e-9 * abs(want):
+                    raise Refuted("codon likelihood for the genetic code %r (models built in one process in the order %s): %.10f, marginal sum with the documented MG94 matrix of this code %.10f" % (
+                        code, order, got, want), witness={"code": code, "order": order}, confirmed=True,
+                        replay={"kind": "custom", "contract": "C01", "func": "replay_codon_models_one_process", "args": {}})
+        return {"backend": "concrete", "cases": n, "bounded": "3 construction orders, 3 taxa, 5 codon columns",
+                "statement": "%d codon likelihoods of models built side by side equal the marginal sum under their own genetic code" % n}
+    return Ob("C01.codon.models_in_one_process", "B", body, clause="the likelihood of a model does not depend on which models were built before it (bounded)", funcs=FUNCS)
+
+
+def replay_codon_models_one_process(args):
+    try:
+        ob_codon_models_one_process().fn()
+    except Refuted as e:
+        return False, e.detail
+    return True, "held"
+
+
 def ob_compress(tier, seed):
     def body():
         from torchtree.evolution.alignment import Alignment, Sequence
@@ -1070,5 +1209,7 @@ def obligations(tier, seed):
     obs.append(ob_tips())
     obs.append(ob_compress(tier, seed))
     obs.append(ob_general_alphabet())
+    obs.append(ob_codon_models_one_process())
+    obs.append(ob_site_indices())
     obs.append(ob_fasta())
     return obs
